@@ -108,6 +108,19 @@ def check(ck):
     # ---- C15.1 purity -----------------------------------------------------------------------------
     n1 = 0
     scan = [(fdump, "obj"), (fload, "obj")]
+    # optional parameters with default None that no call site of the package supplies: always None inside the helper
+    none_params = set()
+    callers_of = {}
+    for hf in prog.module_funcs("jsonclass"):
+        callers_of[hf.fq] = q.all_call_sites(prog, lambda r, c, hf=hf: isinstance(r, type(hf)) and r.fq == hf.fq)
+        a_ = hf.node.args
+        dflts = dict(zip([x.arg for x in a_.args][len(a_.args) - len(a_.defaults):], a_.defaults))
+        for i, p in enumerate(hf.params):
+            d_ = dflts.get(p)
+            if isinstance(d_, ast.Constant) and d_.value is None and callers_of[hf.fq] and \
+                    all(i >= len(cc.args) and not any(isinstance(x, ast.Starred) for x in cc.args) and
+                        not any(k.arg == p or k.arg is None for k in cc.keywords) for (_cf, _cn, cc) in callers_of[hf.fq]):
+                none_params.add((hf.fq, p))
     for hf in prog.module_funcs("jsonclass"):
         if hf.fq in (fdump.fq, fload.fq):
             continue
@@ -116,6 +129,8 @@ def check(ck):
         for i, p in enumerate(hf.params):
             if hf.cls is not None and i == 0:
                 continue        # the method's own instance is not the caller's data (escapes into instances are refused below)
+            if (hf.fq, p) in none_params:
+                continue        # never supplied: the helper works on what it creates itself when it finds None
             fresh_everywhere = bool(callers)
             for (cf, cn, cc) in callers:
                 a = cc.args[i] if i < len(cc.args) else None
@@ -124,7 +139,8 @@ def check(ck):
                     continue
                 ta = prov.origin(cfg_of(cf), cn, a)
                 for alt in prov.alts(ta):
-                    if not (common.is_fresh(alt) or (cf.fq == hf.fq and alt == ("param", p))):
+                    if not (common.is_fresh(alt) or (cf.fq == hf.fq and alt == ("param", p)) or
+                            (alt[0] == "param" and (cf.fq, alt[1]) in none_params)):
                         fresh_everywhere = False
             if not fresh_everywhere:
                 scan.append((hf, p))
